@@ -13,7 +13,7 @@
    The upper read queue (urq) is kept at the level of the msgq's specification: a
    FIFO with capacity, blocked readers (user aios) and blocked writers (the
    pipes' aio_putq, each with its message), with the entry-point behaviour of
-   msgqueue.c: aio_get runs only the readers, aio_put only the writers, resize
+   msgqueue.c: aio_get runs only the readers (pinned; repaired: then the writers), aio_put only the writers, resize
    drops the oldest messages beyond cap+1 and runs nothing.  The poll descriptors
    are evaluated by run_notify whenever they are fetched, so they are functions
    of the state.
@@ -22,14 +22,19 @@
      mf_nb      nni_msgq_aio_get/put call nni_aio_start only if the operation has to
                 wait (pinned: always first, so that a NONBLOCK operation on a raw
                 socket always fails with EAGAIN)
-     mf_resize  nni_msgq_resize runs the blocked writers and readers afterwards *)
+     mf_resize  nni_msgq_resize runs the blocked writers and readers afterwards
+     mf_getput  nni_msgq_aio_get runs the blocked writers after the readers (e654d99): a
+                reader that took a buffered message made room, a blocked writer moves
+                in at once (pinned: it stays blocked until the next put or get) *)
 From Coq Require Import List Arith NArith Bool ZArith.
 From NngV Require Import Proto.Common Proto.SurveyBacktrace Proto.SurveyModel.
 Import ListNotations.
 
-Record mq_fix := mkMqfix { mf_nb : bool; mf_resize : bool }.
-Definition mqfix_none : mq_fix := mkMqfix false false.
-Definition mqfix_all : mq_fix := mkMqfix true true.
+Record mq_fix := mkMqfix3 { mf_nb : bool; mf_resize : bool; mf_getput : bool }.
+(* two-flag form kept for earlier users (Proto/PollModel.v): the third repair absent *)
+Definition mkMqfix (nb rs : bool) : mq_fix := mkMqfix3 nb rs false.
+Definition mqfix_none : mq_fix := mkMqfix3 false false false.
+Definition mqfix_all : mq_fix := mkMqfix3 true true true.
 
 Definition XSURV_SENDQ : nat := 16.      (* xsurv0_pipe_init: nni_msgq_init(&p->sendq, 16) *)
 Definition URQ_DEFAULT : nat := 1.       (* socket.c: nni_msgq_init(&s->s_urq, 1) *)
@@ -89,6 +94,11 @@ Definition urq_put (u : urq) (p : pid) (m : pmsg) : urq * list pout :=
 Definition urq_get (u : urq) (a : aioid) : urq * list pout :=
   let u1 := mkUrq (uq_q u) (uq_cap u) (uq_readers u ++ [a]) (uq_writers u) in
   run_getq (S (length (uq_readers u1))) u1.
+(* nni_msgq_aio_get with the repair e654d99: run_getq, then run_putq *)
+Definition urq_get_fx (fx : mq_fix) (u : urq) (a : aioid) : urq * list pout :=
+  let (u1, o1) := urq_get u a in
+  if mf_getput fx then let (u2, o2) := run_putq (S (length (uq_writers u1))) u1 in (u2, o1 ++ o2)
+  else (u1, o1).
 Definition urq_recvable (u : urq) : bool := negb (isnil (uq_q u)) || negb (isnil (uq_writers u)).
 (* nni_msgq_resize: oldest first beyond cap + 1; the repaired version then runs both queues *)
 Definition urq_resize (fx : mq_fix) (u : urq) (n : nat) : urq * list pout :=
@@ -103,7 +113,7 @@ Definition urq_resize (fx : mq_fix) (u : urq) (n : nat) : urq * list pout :=
 Definition urq_get_waits (u : urq) : bool := negb (isnil (uq_readers u)) || (isnil (uq_q u) && isnil (uq_writers u)).
 (* a user receive on the raw socket: nni_msgq_aio_get *)
 Definition urq_user_recv (fx : mq_fix) (u : urq) (a : aioid) (nb : bool) : urq * list pout :=
-  if nb && (negb (mf_nb fx) || urq_get_waits u) then (u, [Complete a E_AGAIN None]) else urq_get u a.
+  if nb && (negb (mf_nb fx) || urq_get_waits u) then (u, [Complete a E_AGAIN None]) else urq_get_fx fx u a.
 (* nni_msgq_cancel *)
 Definition urq_cancel (u : urq) (a : aioid) (rv : N) : urq * list pout :=
   if has_id a (uq_readers u)
@@ -115,7 +125,8 @@ Definition urq_drop_writer (u : urq) (p : pid) : urq * list pout :=
    map Free (map snd (filter (fun x => N.eqb (fst x) p) (uq_writers u)))).
 (* nni_msgq_close *)
 Definition urq_close (u : urq) : urq * list pout :=
-  (mkUrq [] (uq_cap u) [] (uq_writers u), map Free (uq_q u) ++ fail_aios E_CLOSED (uq_readers u)).
+  (* blocked writers (pipes' aio_putq) fail with ECLOSED too: putq_cb frees their messages *)
+  (mkUrq [] (uq_cap u) [] [], map Free (uq_q u) ++ fail_aios E_CLOSED (uq_readers u) ++ map Free (map snd (uq_writers u))).
 
 (* a pipe's side towards the transport: send queue (msgq with tryput only), aio_getq / aio_send *)
 Record xpipe := mkXpipe {
